@@ -80,7 +80,8 @@ def run(res, tier, seed):
         "the bound on upstream queries (RecursorOps!Bound) is generous by design: it tells 'bounded by the limits' from "
         "'runs away'; the largest count observed is reported",
         "alias chasing of the stub resolver (CachingClient) is bound in the T direction only: chains of 0..12 aliases, "
-        "1/2/3/all links per upstream response, ending in an address, NXDOMAIN or a loop back to any link",
+        "1/2/3/all links per upstream response, ending in an address, NXDOMAIN or a loop back to any link; plus hostile "
+        "answer shapes per hop x supplies of names x preserve_intermediates (scripted upstream capped at 60 queries)",
     ]
     wd = vlib.workdir("c19")
     mc_tla = os.path.join(vlib.SPEC, "MC_Recursor.tla")
@@ -103,10 +104,10 @@ def run(res, tier, seed):
     params = "MC_All" if thorough else "MC_Gen"
     tla, _ = vlib.wrapper(wd, "G_rec", "Gen_Recursor, RecursorNets",
                           {"MC_All": "HostileParams(LModes, MModes, TModes) \\cup FilterParams(LModes, MModes, TModes) \\cup V6Params "
-                                     "\\cup TreeParams(TreeModes) \\cup SoaParams",
+                                     "\\cup TreeParams(TreeModes) \\cup SoaParams \\cup DsParams",
                            "MC_Gen": 'HostileParams({"in", "sib", "sib-noglue", "out", "lame", "self"}, MModes, {"a", "cname-sib", "loop2", "loop3", "none"}) '
                                      '\\cup FilterParams({"in", "sib", "out", "lame"}, {"in", "sib-noglue"}, {"a", "cname-in", "cname-out"}) '
-                                     '\\cup V6Params \\cup TreeParams(TreeModes) \\cup SoaParams'}, [])
+                                     '\\cup V6Params \\cup TreeParams(TreeModes) \\cup SoaParams \\cup DsParams'}, [])
     cfg = write_cfg(wd, "G_rec", spec="Spec", params=params, ns=24, rec=24, cn=64, rule="required", tail="INVARIANT Emit")
     cases, st = vlib.gen(tla, cfg, wd, workers=W, timeout=2400)
     res.states += st["distinct"]
@@ -189,6 +190,17 @@ def run(res, tier, seed):
     spath = os.path.join(wd, "stub.trace.ndjson")
     vlib.run_driver("drive_recursor", ["stub", "--trace", spath], stdout_path=os.path.join(wd, "stub.out"))
     stub = [v["stub"] for v in vlib.read_ndjson(os.path.join(wd, "stub.out"))]
+    # ... and hostile answer shapes (alias only / alias + target address / alias + unrelated address / two aliases per
+    # response; endless, cyclic and finite supplies of names; preserve_intermediates on and off); the scripted upstream
+    # gives up after 60 queries, so a chase that does not stop ends as a count, not as a crash
+    shpath = os.path.join(wd, "stubshapes.trace.ndjson")
+    vlib.run_driver("drive_recursor", ["stubshapes", "--trace", shpath], stdout_path=os.path.join(wd, "stubshapes.out"))
+    shapes = [v["stub"] for v in vlib.read_ndjson(os.path.join(wd, "stubshapes.out"))]
+    if len(shapes) < 200 or not any(v["kind"] == "pos" and v["asked"] >= 4 for v in shapes):
+        raise vlib.ToolError("vacuous stub shape layer")
+    with open(spath, "a") as out, open(shpath) as f:
+        out.write(f.read())
+    stub += shapes
     if not any(v["kind"] == "pos" and v["asked"] >= 5 for v in stub) or not any(v["end"] == "loop" for v in stub):
         raise vlib.ToolError("vacuous stub layer")
     res.traces += len(stub)
